@@ -50,9 +50,20 @@ theorem C05_no_text_no_output (cfg : Cfg) (hc : cfg.Blank) (fuel : Nat) (ds : Li
   simp only [nb, List.filter_eq_nil_iff] at hnil
   simpa using hnil b hb
 
-/-- **flat_width_sound (alignment premise).** `ir_flat_width` — what every alignment decision of
+/-- **flat_width_sound (partial).** For slices made of texts without line breaks, spaces, soft
+lines, indents, lists and group-less `IfBreak`s, printed in flat mode from a state without pending
+indentation: the column advances by exactly `ir_flat_width` — the premise of the paddings computed
+in `print_align_group` and of `fits`. (Full statement would include groups and fills, which choose
+their own mode by `fits` even inside flat content, and align groups.) -/
+theorem C05_flat_width_sound_partial (cfg : Cfg) (fuel : Nat) (ds : List Doc) (st st' : St)
+    (hp : flatSimpleL ds = true) (hs : st.pending = none)
+    (h : docsWith (printDoc cfg fuel) st ds .flat = some st') :
+    st'.col = st.col + flatWidthL ds :=
+  (docsWith_specW _ (printDoc_specW cfg fuel) ds st st' hp hs h).2
+
+/-- `ir_flat_width` — what every alignment decision of
 `print_align_group` is computed from — depends on the lengths of the texts only -/
-theorem C05_flat_width_shape (ds : List Doc) : flatWidthL (shapeL ds) = flatWidthL ds :=
+theorem C05_flat_width_depends_on_lengths_only (ds : List Doc) : flatWidthL (shapeL ds) = flatWidthL ds :=
   flatWidthL_shape ds
 
 /-! Non-vacuity (tests, labelled as such): the default-like configuration is `Blank`, a plain IR with a
@@ -68,6 +79,7 @@ example : plainL sampleIR = true := by decide
 example : print cfgDefault 50 sampleIR
     = some [97, 10, 98, 10, 32, 32, 32, 32, 99, 100, 32, 101, 102, 32, 103, 32, 104, 10, 105] := by
   decide +kernel
+example : flatSimpleL [.text [97, 98], .softLine, .indent [.ifBreak .hardLine (.text [99]) none]] = true := by decide
 example : leavesL sampleIR = [97, 98, 99, 100, 101, 102, 103, 104, 105] := by decide
 
 end Printer
